@@ -743,7 +743,7 @@ class FakeModule(object):
                             self._last_code
                         )
 
-                    return True
+                    return code
 
                 except DecodeError:
                     pass
